@@ -1152,6 +1152,13 @@ pub(crate) fn convert_try_mac(
     context: &RewriteContext<'_>,
 ) -> Option<ast::Expr> {
     let path = &pprust::path_to_string(&mac.path);
+    if context
+        .skip_context
+        .macros
+        .skip(context.snippet(mac.path.span))
+    {
+        return None;
+    }
     if path == "try" || path == "r#try" {
         let ts = mac.args.tokens.clone();
 
